@@ -118,6 +118,7 @@ type World struct {
 	gateMode   int  // 1 success, 2 fail
 	inGate     bool
 	gateHigher string
+	markAcks   bool // record an acknowledgement marker in the file-operation trace whenever Persist returns success
 	gateOff    bool // teardown: gate is transparent
 
 	ll        map[string]string
@@ -256,6 +257,12 @@ func (w *World) gate(orig moss.LowerLevelUpdate) moss.LowerLevelUpdate {
 		ss, err := orig(higher)
 		if err == nil {
 			w.persistOK++
+			if w.markAcks && w.vfs != nil && w.store != nil {
+				// Persist has just returned success: from here on its content is acknowledged
+				if p, d := w.storePrefix(); d != nil {
+					w.vfs.Mark(p, d.String())
+				}
+			}
 		}
 		return ss, err
 	}
